@@ -376,6 +376,19 @@ class HistogramBase(abc.ABC):
         if new_dtype != self.dtype:
             self.set_dtype(new_dtype)
 
+    def _match_dtype(self, array: np.ndarray) -> np.ndarray:
+        """Keep `dtype` the element type of newly assigned frequencies / errors2.
+
+        The histogram's dtype is promoted if needed (so that nothing is lost)
+        and the array is returned in that dtype.
+        """
+        if getattr(self, "_dtype", None) is None:  # Still in the constructor
+            return array
+        if array.dtype != self._dtype:
+            self._coerce_dtype(array.dtype)
+            array = array.astype(self._dtype)
+        return array
+
     @property
     def bin_count(self) -> int:
         """Total number of bins."""
@@ -397,7 +410,7 @@ class HistogramBase(abc.ABC):
                 warnings.warn("Negative frequencies in the histogram.")
             else:
                 raise ValueError("Cannot have negative frequencies.")
-        self._frequencies = frequencies
+        self._frequencies = self._match_dtype(frequencies)
 
     @property
     def densities(self) -> np.ndarray:
@@ -448,7 +461,7 @@ class HistogramBase(abc.ABC):
             raise ValueError("Square errors must have same dimension as bins.")
         if np.any(array < 0):
             raise ValueError("Cannot have negative square errors.")
-        self._errors2 = array
+        self._errors2 = self._match_dtype(array)
 
     @property
     def errors(self) -> np.ndarray:
